@@ -211,11 +211,15 @@ impl EventSource for Park {
             .take()
             .map(|dur| get_scheduler().add_timer(dur, self.wait_co.clone()));
         self.set_timeout_handle(timeout_handle);
+        #[cfg(may_verif)]
+        crate::verif::label("park.subscribe.timer_armed", 0);
 
         let _g = self.delay_drop();
 
         // register the coroutine
         self.wait_co.store(co);
+        #[cfg(may_verif)]
+        crate::verif::label("park.subscribe.stored", 0);
 
         // re-check the state, only clear once after resume
         if self.state.load(Ordering::Acquire) {
